@@ -134,13 +134,18 @@ class SimKernel:
         self.last_worker = None
         self.counts = {}
         self.cur_op = None
+        self.in_emit = False
 
     # ---------------------------------------------------------------- trace
     def emit(self, name, p=0, a=0, b=0):
         arb = self.arb
         nw = q = 0
         if arb is not None:
-            nw = arb.num_workers if isinstance(arb.num_workers, int) else 0
+            self.in_emit = True            # reading the property runs arbiter code: not an injection point
+            try:
+                nw = arb.num_workers if isinstance(arb.num_workers, int) else 0
+            finally:
+                self.in_emit = False
             q = len(arb.SIG_QUEUE)
         self.events.append([name, p, a, b, self.ticks, nw, q])
         if len(self.events) > self.max_events:
@@ -153,6 +158,8 @@ class SimKernel:
         self.inject(name + "." + phase)
 
     def inject(self, label):
+        if self.in_emit:
+            return
         self.npoints += 1
         n = self.counts[label] = self.counts.get(label, 0) + 1
         self.sched.at(self, label, n, self.npoints)
